@@ -5,6 +5,7 @@ from props.C03 import run_endpoints
 def run(rep, kf, tier, seed):
     from pyvc import engine_b
     import contracts.responses_b as rb
-    engine_b.discharge(rep, kf, [rb.source_table_contract(), rb.add_responses_contract()], "C04", tier, seed)
+    import contracts.responses_c as crc
+    engine_b.discharge(rep, kf, [rb.source_table_contract(), rb.add_responses_contract(), crc.response_contract()], "C04", tier, seed)
     run_endpoints(rep, kf, tier, seed, "C04")
     return {"level": "proof"}
